@@ -1,0 +1,216 @@
+// Copyright 2020-2025 Buf Technologies, Inc.
+//
+// Licensed under the Apache License, Version 2.0 (the "License");
+// you may not use this file except in compliance with the License.
+// You may obtain a copy of the License at
+//
+//      http://www.apache.org/licenses/LICENSE-2.0
+//
+// Unless required by applicable law or agreed to in writing, software
+// distributed under the License is distributed on an "AS IS" BASIS,
+// WITHOUT WARRANTIES OR CONDITIONS OF ANY KIND, either express or implied.
+// See the License for the specific language governing permissions and
+// limitations under the License.
+
+//go:build verif
+
+package bufimage
+
+// Contracts for the gocv verifier (contract author ca-B2). Comment-only.
+// Spec functions / ghost (b2_*): /verif/specs/C11_formats.spec; s_* (ca-S): /verif/specs/C01_descriptor.spec.
+//
+// C11, the FROM-proto direction: an image read from a file (imagev1.Image) becomes an in-memory Image whose files carry
+// the markers of the buf extension (is_import, is_syntax_unspecified, unused_dependency, module name/commit) and a
+// descriptor with every field of the written file. The TO-proto direction is zz_verif_contracts_descriptor.go
+// (fileDescriptorProtoToProtoImageFile / imageFileToProtoImageFile).
+//
+// ---- the in-memory image file stores what it is given ----
+//@ func newImageFileNoValidate(fileDescriptor, moduleFullName, commitID, externalPath, localPath, isImport, isSyntaxUnspecified, unusedDependencyIndexes) (r)
+//@   property C11
+//@   modifies ghost.s_unknown
+//@   requires descriptor-given: fileDescriptor != nil
+//@   ensures built: r != nil && !old(allocated(r)) && r.fileDescriptorProto != nil
+//@   ensures is-import: r.isImport == isImport
+//@   ensures is-syntax-unspecified: r.isSyntaxUnspecified == isSyntaxUnspecified
+//@   ensures unused-dependency-indexes: len(r.unusedDependencyIndexes) == len(unusedDependencyIndexes) && (forall a int :: 0 <= a && a < len(unusedDependencyIndexes) ==> r.unusedDependencyIndexes[a] == unusedDependencyIndexes[a])
+//@   ensures module: r.moduleFullName == moduleFullName && r.commitID == commitID
+//@   ensures paths: r.externalPath == externalPath && r.localPath == localPath
+//@   ensures descriptor-proto-kept-as-is: typeOf(fileDescriptor) == typeId(*descriptorpb.FileDescriptorProto) ==> r.fileDescriptorProto == fileDescriptor && ghost.s_unknown == old(ghost.s_unknown)
+//@   ensures descriptor-lists: typeOf(fileDescriptor) != typeId(*descriptorpb.FileDescriptorProto) ==> r.fileDescriptorProto.Dependency == fileDescriptor.GetDependency() && r.fileDescriptorProto.PublicDependency == fileDescriptor.GetPublicDependency() && r.fileDescriptorProto.WeakDependency == fileDescriptor.GetWeakDependency()
+//@   ensures descriptor-declarations: typeOf(fileDescriptor) != typeId(*descriptorpb.FileDescriptorProto) ==> r.fileDescriptorProto.MessageType == fileDescriptor.GetMessageType() && r.fileDescriptorProto.EnumType == fileDescriptor.GetEnumType() && r.fileDescriptorProto.Service == fileDescriptor.GetService() && r.fileDescriptorProto.Extension == fileDescriptor.GetExtension()
+//@   ensures descriptor-options-and-source-info: typeOf(fileDescriptor) != typeId(*descriptorpb.FileDescriptorProto) ==> r.fileDescriptorProto.Options == fileDescriptor.GetOptions() && r.fileDescriptorProto.SourceCodeInfo == fileDescriptor.GetSourceCodeInfo()
+//@   ensures descriptor-scalars: typeOf(fileDescriptor) != typeId(*descriptorpb.FileDescriptorProto) ==> s_strOf(r.fileDescriptorProto.Name) == fileDescriptor.GetName() && s_strOf(r.fileDescriptorProto.Package) == fileDescriptor.GetPackage() && s_strOf(r.fileDescriptorProto.Syntax) == fileDescriptor.GetSyntax()
+//@   ensures descriptor-unknown-fields: typeOf(fileDescriptor) != typeId(*descriptorpb.FileDescriptorProto) ==> ghost.s_unknown[r.fileDescriptorProto.ProtoReflect()] == old(ghost.s_unknown)[fileDescriptor.ProtoReflect()]
+//@   canary ensures r.isImport
+//
+//@ func (f *imageFile) IsImport() (r)
+//@   property C11
+//@   ensures r == f.isImport
+//@ func (f *imageFile) IsSyntaxUnspecified() (r)
+//@   property C11
+//@   ensures r == f.isSyntaxUnspecified
+//@ func (f *imageFile) UnusedDependencyIndexes() (r)
+//@   property C11
+//@   ensures r == f.unusedDependencyIndexes
+//@ func (f *imageFile) FileDescriptorProto() (r)
+//@   property C11
+//@   ensures r == f.fileDescriptorProto
+//@ func (f *imageFile) FullName() (r)
+//@   property C11
+//@   ensures r == f.moduleFullName
+//@ func (f *imageFile) CommitID() (r)
+//@   property C11
+//@   ensures r == f.commitID
+//
+// ---- an image without validation (the wrappers that only drop files) ----
+//@ func newImageNoValidate(files, resolver) (r)
+//@   property C11
+//@   ensures built: r != nil && !old(allocated(r))
+//@   ensures files-kept-in-order: r.files == files
+//@   ensures resolver-kept: r.resolver == resolver
+//@   ensures indexed-by-path: forall j int :: 0 <= j && j < len(files) ==> files[j].Path() in r.pathToImageFile
+//@   ensures index-only-files: forall p string :: p in r.pathToImageFile ==> (exists j int :: 0 <= j && j < len(files) && files[j].Path() == p && r.pathToImageFile[p] == files[j])
+//@   loop 0 invariant indexed-so-far: forall j int :: 0 <= j && j < $i ==> files[j].Path() in pathToImageFile
+//@   loop 0 invariant index-only-files-so-far: pathToImageFile != nil && (forall p string :: p in pathToImageFile ==> (exists j int :: 0 <= j && j < $i && files[j].Path() == p && pathToImageFile[p] == files[j]))
+//
+// ImageWithoutImports (--exclude-imports): exactly the non-import files of the image, each one the image's own file
+// object, in the image's order, with the image's resolver; nothing else changes.
+//@ func ImageWithoutImports(image) (r)
+//@   property C11
+//@   ensures built: r != nil && typeOf(r) == typeId(*image) && !old(allocated(r))
+//@   ensures only-non-imports: forall k int :: 0 <= k && k < len(cast(*image, r).files) ==> !cast(*image, r).files[k].IsImport() && (exists j int :: 0 <= j && j < len(image.Files()) && image.Files()[j] == cast(*image, r).files[k])
+//@   ensures every-non-import: forall j int :: 0 <= j && j < len(image.Files()) && !image.Files()[j].IsImport() ==> (exists k int :: 0 <= k && k < len(cast(*image, r).files) && cast(*image, r).files[k] == image.Files()[j])
+//@   ensures order-kept: forall a int, b int :: 0 <= a && a < b && b < len(cast(*image, r).files) ==> (exists ja int, jb int :: 0 <= ja && ja < jb && jb < len(image.Files()) && image.Files()[ja] == cast(*image, r).files[a] && image.Files()[jb] == cast(*image, r).files[b])
+//@   ensures resolver-kept: cast(*image, r).resolver == image.Resolver()
+//@   loop 0 invariant only-non-imports-so-far: forall k int :: 0 <= k && k < len(newImageFiles) ==> !newImageFiles[k].IsImport() && (exists j int :: 0 <= j && j < $i && imageFiles[j] == newImageFiles[k])
+//@   loop 0 invariant every-non-import-so-far: forall j int :: 0 <= j && j < $i && !imageFiles[j].IsImport() ==> (exists k int :: 0 <= k && k < len(newImageFiles) && newImageFiles[k] == imageFiles[j])
+//@   loop 0 invariant order-kept-so-far: forall a int, b int :: 0 <= a && a < b && b < len(newImageFiles) ==> (exists ja int, jb int :: 0 <= ja && ja < jb && jb < $i && imageFiles[ja] == newImageFiles[a] && imageFiles[jb] == newImageFiles[b])
+//@   canary ensures len(cast(*image, r).files) == 0
+//
+// ---- validation of a written image (validate.go) ----
+// a module name is complete or absent
+//@ func validateProtoModuleName(protoModuleName) (err)
+//@   property C11
+//@   ensures complete-name-accepted: protoModuleName.GetRemote() != "" && protoModuleName.GetOwner() != "" && protoModuleName.GetRepository() != "" ==> err == nil
+//@   ensures incomplete-name-rejected: protoModuleName.GetRemote() == "" || protoModuleName.GetOwner() == "" || protoModuleName.GetRepository() == "" ==> err != nil
+//@ func validateProtoModuleInfo(protoModuleInfo) (err)
+//@   property C11
+//@   ensures no-name-accepted: protoModuleInfo.GetName() == nil ==> err == nil
+//@   ensures complete-name-accepted: protoModuleInfo.GetName() != nil && protoModuleInfo.GetName().GetRemote() != "" && protoModuleInfo.GetName().GetOwner() != "" && protoModuleInfo.GetName().GetRepository() != "" ==> err == nil
+//@   ensures incomplete-name-rejected: protoModuleInfo.GetName() != nil && (protoModuleInfo.GetName().GetRemote() == "" || protoModuleInfo.GetName().GetOwner() == "" || protoModuleInfo.GetName().GetRepository() == "") ==> err != nil
+// every unused-dependency index points into the file's dependency list; the module name, if any, is complete
+//@ func validateProtoImageFile(protoImageFile) (err)
+//@   property C11
+//@   ensures no-extension-accepted: protoImageFile.GetBufExtension() == nil ==> err == nil
+//@   ensures unused-index-out-of-range-rejected: protoImageFile.GetBufExtension() != nil && (exists k int :: 0 <= k && k < len(protoImageFile.GetBufExtension().GetUnusedDependency()) && (protoImageFile.GetBufExtension().GetUnusedDependency()[k] < 0 || protoImageFile.GetBufExtension().GetUnusedDependency()[k] >= len(protoImageFile.GetDependency()))) ==> err != nil
+//@   ensures accepted-indexes-in-range: err == nil && protoImageFile.GetBufExtension() != nil ==> (forall k int :: 0 <= k && k < len(protoImageFile.GetBufExtension().GetUnusedDependency()) ==> 0 <= protoImageFile.GetBufExtension().GetUnusedDependency()[k] && protoImageFile.GetBufExtension().GetUnusedDependency()[k] < len(protoImageFile.GetDependency()))
+//@   ensures incomplete-module-name-rejected: protoImageFile.GetBufExtension() != nil && protoImageFile.GetBufExtension().GetModuleInfo() != nil && protoImageFile.GetBufExtension().GetModuleInfo().GetName() != nil && (protoImageFile.GetBufExtension().GetModuleInfo().GetName().GetRemote() == "" || protoImageFile.GetBufExtension().GetModuleInfo().GetName().GetOwner() == "" || protoImageFile.GetBufExtension().GetModuleInfo().GetName().GetRepository() == "") ==> err != nil
+//@   ensures valid-file-accepted: protoImageFile.GetBufExtension() != nil && (forall k int :: 0 <= k && k < len(protoImageFile.GetBufExtension().GetUnusedDependency()) ==> 0 <= protoImageFile.GetBufExtension().GetUnusedDependency()[k] && protoImageFile.GetBufExtension().GetUnusedDependency()[k] < len(protoImageFile.GetDependency())) && (protoImageFile.GetBufExtension().GetModuleInfo() == nil || protoImageFile.GetBufExtension().GetModuleInfo().GetName() == nil) ==> err == nil
+//@   loop 0 invariant in-range-so-far: forall k int :: 0 <= k && k < $i ==> 0 <= protoImageFileExtension.GetUnusedDependency()[k] && protoImageFileExtension.GetUnusedDependency()[k] < lenDependencies
+//@   canary ensures err != nil
+//@   canary ensures err == nil
+// an image is a non-nil message with at least one file, all of them valid
+//@ func validateProtoImage(protoImage) (err)
+//@   property C11
+//@   ensures nil-image-rejected: protoImage == nil ==> err != nil
+//@   ensures empty-image-rejected: protoImage != nil && len(protoImage.GetFile()) == 0 ==> err != nil
+//@   ensures accepted-files-have-indexes-in-range: err == nil ==> (forall i int, k int :: 0 <= i && i < len(protoImage.GetFile()) && protoImage.GetFile()[i].GetBufExtension() != nil && 0 <= k && k < len(protoImage.GetFile()[i].GetBufExtension().GetUnusedDependency()) ==> 0 <= protoImage.GetFile()[i].GetBufExtension().GetUnusedDependency()[k] && protoImage.GetFile()[i].GetBufExtension().GetUnusedDependency()[k] < len(protoImage.GetFile()[i].GetDependency()))
+//@   ensures bad-file-rejected: protoImage != nil && (exists i int, k int :: 0 <= i && i < len(protoImage.GetFile()) && protoImage.GetFile()[i].GetBufExtension() != nil && 0 <= k && k < len(protoImage.GetFile()[i].GetBufExtension().GetUnusedDependency()) && (protoImage.GetFile()[i].GetBufExtension().GetUnusedDependency()[k] < 0 || protoImage.GetFile()[i].GetBufExtension().GetUnusedDependency()[k] >= len(protoImage.GetFile()[i].GetDependency()))) ==> err != nil
+//@   loop 0 invariant files-valid-so-far: forall i int, k int :: 0 <= i && i < $i && protoImage.GetFile()[i].GetBufExtension() != nil && 0 <= k && k < len(protoImage.GetFile()[i].GetBufExtension().GetUnusedDependency()) ==> 0 <= protoImage.GetFile()[i].GetBufExtension().GetUnusedDependency()[k] && protoImage.GetFile()[i].GetBufExtension().GetUnusedDependency()[k] < len(protoImage.GetFile()[i].GetDependency())
+//@   canary ensures err != nil
+//@   canary ensures err == nil
+//
+// ---- reparseImageProto: unrecognised fields / extensions are re-parsed with the given resolver; only
+// WithUnusedImportsComputation rewrites the unused-dependency markers (recorded in ghost.b2_unusedRecomputed) ----
+//@ func reparseImageProto(protoImage, resolver, computeUnusedImports) (err)
+//@   property C11
+//@   modifies heap, ghost.s_unknown, ghost.b2_reparsedWith, ghost.fail, ghost.wfail, ghost.b2_unusedRecomputed
+//@   ghost before "tracker := &importTracker{" b2_unusedRecomputed := true
+//@   ensures reparsed-with-the-given-resolver: resolver != nil ==> ghost.b2_reparsedWith[protoImage.ProtoReflect()] == resolver
+//@   ensures markers-rewritten-only-when-asked: !computeUnusedImports ==> ghost.b2_unusedRecomputed == old(ghost.b2_unusedRecomputed)
+//
+// ---- NewImageForProto ----
+// With F = protoImage.GetFile() and R = the files of the resulting image:
+//  * a nil image, an image without files, an out-of-range unused-dependency index, an incomplete module name and two
+//    files with one path are errors;
+//  * R has one file per written file, in the written order (no re-ordering);
+//  * R[i] is an import / has unspecified syntax iff the buf extension of F[i] says so (no extension: neither);
+//  * unless the markers were recomputed on request, R[i]'s unused-dependency indexes are those of the extension;
+//  * what is handed to NewImageFile for F[i] (assert module-from-extension): the written file itself as descriptor
+//    source, its name as external path, the module name built from the extension's (remote, owner, repository) and the
+//    commit parsed from its dashless form - only when there is a module name -, nil / no commit otherwise.
+// (The descriptor content and the module name of R[i] in terms of F[i] are NOT stated as postconditions. Tried with two
+// extra clauses on the trusted bridge NewImageFile (r.FullName() == moduleFullName; descriptor fields == the getters of the
+// *imagev1.ImageFile source): (a) the engine has no typeOf fact for a value of static type *imagev1.ImageFile passed as an
+// interface (assert typeOf(protoImageFile) == typeId(*imagev1.ImageFile): solver says sat), so the descriptor clause never
+// applies; (b) newImage `modifies heap`, so the module name's components (heap fields of *bufparse.fullName) are lost at the
+// return. The clauses were removed again. The verified statements are: assert module-from-extension / commit-from-extension
+// (what is handed over), newImageFileNoValidate above (what the file object stores) and
+// protodescriptor.FileDescriptorProtoForFileDescriptor (every descriptor field is carried over).)
+//@ func NewImageForProto(protoImage, options) (r, err)
+//@   property C11
+//@   modifies heap, ghost.s_unknown, ghost.b2_reparsedWith, ghost.fail, ghost.wfail, ghost.b2_unusedRecomputed
+//@   ensures nil-image-rejected: protoImage == nil ==> err != nil
+//@   ensures empty-image-rejected: len(protoImage.GetFile()) == 0 ==> err != nil
+//@   ensures bad-unused-index-rejected: (exists i int, k int :: 0 <= i && i < len(protoImage.GetFile()) && protoImage.GetFile()[i].GetBufExtension() != nil && 0 <= k && k < len(protoImage.GetFile()[i].GetBufExtension().GetUnusedDependency()) && (protoImage.GetFile()[i].GetBufExtension().GetUnusedDependency()[k] < 0 || protoImage.GetFile()[i].GetBufExtension().GetUnusedDependency()[k] >= len(protoImage.GetFile()[i].GetDependency()))) ==> err != nil
+// (no "failure returns a nil Image" clause: `return newImage(...)` converts newImage's nil *image into a NON-nil Image
+// interface value in Go; every caller tests err first)
+//@   ensures built: err == nil ==> r != nil && typeOf(r) == typeId(*image)
+//@   ensures one-file-per-written-file: err == nil ==> len(cast(*image, r).files) == len(protoImage.GetFile())
+//@   ensures duplicate-paths-rejected: err == nil ==> (forall a int, b int :: 0 <= a && a < b && b < len(cast(*image, r).files) ==> cast(*image, r).files[a].Path() != cast(*image, r).files[b].Path())
+//@   ensures is-import-from-extension: err == nil ==> (forall i int :: 0 <= i && i < len(protoImage.GetFile()) ==> cast(*image, r).files[i].IsImport() == (protoImage.GetFile()[i].GetBufExtension() != nil && protoImage.GetFile()[i].GetBufExtension().GetIsImport()))
+//@   ensures is-syntax-unspecified-from-extension: err == nil ==> (forall i int :: 0 <= i && i < len(protoImage.GetFile()) ==> cast(*image, r).files[i].IsSyntaxUnspecified() == (protoImage.GetFile()[i].GetBufExtension() != nil && protoImage.GetFile()[i].GetBufExtension().GetIsSyntaxUnspecified()))
+//@   ensures unused-dependencies-from-extension: err == nil && ghost.b2_unusedRecomputed == old(ghost.b2_unusedRecomputed) ==> (forall i int :: 0 <= i && i < len(protoImage.GetFile()) && protoImage.GetFile()[i].GetBufExtension() != nil ==> len(cast(*image, r).files[i].UnusedDependencyIndexes()) == len(protoImage.GetFile()[i].GetBufExtension().GetUnusedDependency()) && (forall a int :: 0 <= a && a < len(protoImage.GetFile()[i].GetBufExtension().GetUnusedDependency()) ==> cast(*image, r).files[i].UnusedDependencyIndexes()[a] == protoImage.GetFile()[i].GetBufExtension().GetUnusedDependency()[a]))
+//@   ensures no-extension-no-unused-dependencies: err == nil ==> (forall i int :: 0 <= i && i < len(protoImage.GetFile()) && protoImage.GetFile()[i].GetBufExtension() == nil ==> len(cast(*image, r).files[i].UnusedDependencyIndexes()) == 0)
+//@   ensures path-is-descriptor-name: err == nil ==> (forall i int :: 0 <= i && i < len(cast(*image, r).files) ==> cast(*image, r).files[i].Path() == cast(*image, r).files[i].FileDescriptorProto().GetName())
+//@   assert before "imageFile, err := NewImageFile(" no-extension-no-markers: protoImageFile.GetBufExtension() == nil ==> !isImport && !isSyntaxUnspecified && len(unusedDependencyIndexes) == 0 && moduleFullName == nil
+//@   assert before "imageFile, err := NewImageFile(" markers-from-extension: protoImageFile.GetBufExtension() != nil ==> isImport == protoImageFile.GetBufExtension().GetIsImport() && isSyntaxUnspecified == protoImageFile.GetBufExtension().GetIsSyntaxUnspecified() && unusedDependencyIndexes == protoImageFile.GetBufExtension().GetUnusedDependency()
+//@   assert before "imageFile, err := NewImageFile(" module-present: protoImageFile.GetBufExtension() != nil && protoImageFile.GetBufExtension().GetModuleInfo() != nil && protoImageFile.GetBufExtension().GetModuleInfo().GetName() != nil ==> moduleFullName != nil
+//@   assert before "imageFile, err := NewImageFile(" module-from-extension: protoImageFile.GetBufExtension() != nil && protoImageFile.GetBufExtension().GetModuleInfo() != nil && protoImageFile.GetBufExtension().GetModuleInfo().GetName() != nil ==> cast(*bufparse.fullName, moduleFullName).registry == protoImageFile.GetBufExtension().GetModuleInfo().GetName().GetRemote() && cast(*bufparse.fullName, moduleFullName).owner == protoImageFile.GetBufExtension().GetModuleInfo().GetName().GetOwner() && cast(*bufparse.fullName, moduleFullName).name == protoImageFile.GetBufExtension().GetModuleInfo().GetName().GetRepository()
+//@   assert before "imageFile, err := NewImageFile(" commit-from-extension: protoImageFile.GetBufExtension() != nil && protoImageFile.GetBufExtension().GetModuleInfo() != nil && protoImageFile.GetBufExtension().GetModuleInfo().GetName() != nil && s_strOf(protoImageFile.GetBufExtension().GetModuleInfo().xxx_hidden_Commit) != "" ==> commitID == first(uuidutil.FromDashless(s_strOf(protoImageFile.GetBufExtension().GetModuleInfo().xxx_hidden_Commit)))
+//@   assert before "imageFile, err := NewImageFile(" no-module-name-no-module: protoImageFile.GetBufExtension() != nil && (protoImageFile.GetBufExtension().GetModuleInfo() == nil || protoImageFile.GetBufExtension().GetModuleInfo().GetName() == nil) ==> moduleFullName == nil
+//@   loop 1 invariant files-so-far: len(imageFiles) == len(protoImage.GetFile()) && (forall j int :: 0 <= j && j < $i ==> imageFiles[j] != nil && imageFiles[j].IsImport() == (protoImage.GetFile()[j].GetBufExtension() != nil && protoImage.GetFile()[j].GetBufExtension().GetIsImport()) && imageFiles[j].IsSyntaxUnspecified() == (protoImage.GetFile()[j].GetBufExtension() != nil && protoImage.GetFile()[j].GetBufExtension().GetIsSyntaxUnspecified()) && imageFiles[j].Path() == imageFiles[j].FileDescriptorProto().GetName())
+//@   loop 1 invariant unused-so-far: forall j int :: 0 <= j && j < $i ==> (protoImage.GetFile()[j].GetBufExtension() == nil ==> len(imageFiles[j].UnusedDependencyIndexes()) == 0) && (protoImage.GetFile()[j].GetBufExtension() != nil ==> len(imageFiles[j].UnusedDependencyIndexes()) == len(protoImage.GetFile()[j].GetBufExtension().GetUnusedDependency()) && (forall a int :: 0 <= a && a < len(protoImage.GetFile()[j].GetBufExtension().GetUnusedDependency()) ==> imageFiles[j].UnusedDependencyIndexes()[a] == protoImage.GetFile()[j].GetBufExtension().GetUnusedDependency()[a]))
+//@   canary ensures err != nil
+//
+// ---- NewImageForCodeGeneratorRequest: the TO-proto and the FROM-proto direction composed in the code itself ----
+// Each descriptor of the request is written out with fileDescriptorProtoToProtoImageFile(fd, false, false, nil, nil, "")
+// and the resulting message is read back with NewImageForProto: the ROUND-TRIP LEMMA over the two contracts, for the
+// markers (assert round-trip-markers: one file per descriptor, in order, none an import, none with unspecified syntax,
+// no unused dependencies) - the descriptor fields are covered per direction (fileDescriptorProtoToProtoImageFile /
+// protodescriptor.FileDescriptorProtoForFileDescriptor, see the note at NewImageForProto). Imports are then decided by
+// ImageWithOnlyPaths over file_to_generate (trusted wrapper, labelled with the request: k_requested).
+//@ func NewImageForCodeGeneratorRequest(request, options) (r, err)
+//@   property C11
+//@   modifies heap, ghost.s_unknown, ghost.b2_reparsedWith, ghost.fail, ghost.wfail, ghost.b2_unusedRecomputed, heap imagev1.ModuleInfo.xxx_hidden_Commit
+//@   requires descriptors-given: forall i int :: 0 <= i && i < len(request.GetProtoFile()) ==> request.GetProtoFile()[i] != nil
+//@   ensures selected-by-file-to-generate: err == nil ==> r != nil && k_requested(r) == request.GetFileToGenerate()
+//@   ensures empty-request-rejected: len(request.GetProtoFile()) == 0 ==> err != nil
+//@   assert before "return ImageWithOnlyPaths(" round-trip-files: len(cast(*image, image).files) == len(request.GetProtoFile())
+//@   assert before "return ImageWithOnlyPaths(" round-trip-markers: forall i int :: 0 <= i && i < len(request.GetProtoFile()) ==> !cast(*image, image).files[i].IsImport() && !cast(*image, image).files[i].IsSyntaxUnspecified() && (ghost.b2_unusedRecomputed == old(ghost.b2_unusedRecomputed) ==> len(cast(*image, image).files[i].UnusedDependencyIndexes()) == 0)
+//@   loop 0 invariant written-so-far: len(protoImageFiles) == len(request.GetProtoFile()) && (forall j int :: 0 <= j && j < $i ==> protoImageFiles[j] != nil && protoImageFiles[j].GetBufExtension() != nil && !protoImageFiles[j].GetBufExtension().GetIsImport() && !protoImageFiles[j].GetBufExtension().GetIsSyntaxUnspecified() && len(protoImageFiles[j].GetBufExtension().GetUnusedDependency()) == 0)
+//@   canary ensures err != nil
+//
+// ---- the plain descriptor list of an image (--as-file-descriptor-set) ----
+//@ func imageFilesToFileDescriptorProtos(imageFiles) (r)
+//@   property C11
+//@   ensures one-per-file-in-order: len(r) == len(imageFiles) && (forall i int :: 0 <= i && i < len(imageFiles) ==> r[i] == imageFiles[i].FileDescriptorProto())
+//@   loop 0 invariant so-far: len(fileDescriptorProtos) == len(imageFiles) && (forall j int :: 0 <= j && j < $i ==> fileDescriptorProtos[j] == imageFiles[j].FileDescriptorProto())
+//@ func ImageToFileDescriptorProtos(image) (r)
+//@   property C11
+//@   ensures one-per-file-in-order: len(r) == len(image.Files()) && (forall i int :: 0 <= i && i < len(image.Files()) ==> r[i] == image.Files()[i].FileDescriptorProto())
+// (ImageToFileDescriptorSet is NOT under contract: it goes through the generic protodescriptor.FileDescriptorProtosForFileDescriptors,
+// whose fast path is a type assertion `any(fileDescriptors).([]*descriptorpb.FileDescriptorProto)` on a slice boxed in an
+// interface: the engine models the unboxed slice as an unrelated value, so "the set holds the image's own descriptors"
+// has a counterexample in the model (solver says sat, path 2 at protodescriptor.go:113). Its input is ImageToFileDescriptorProtos above.)
+//
+// the "do not re-parse" option is a fixed value (a function literal without captured state); declared pure so that
+// bufctl can say WHICH option it passes (function values are compared by identity of the returning call)
+//@ pure func WithNoReparse() (r)
+//@   property C11
+//@   ensures r != nil
+//@   closure 0 ensures sets-only-no-reparse: options.noReparse && options.computeUnusedImports == old(options.computeUnusedImports)
+//@ func WithUnusedImportsComputation() (r)
+//@   property C11
+//@   ensures r != nil
+//@   closure 0 ensures sets-only-compute-unused-imports: options.computeUnusedImports && options.noReparse == old(options.noReparse)
